@@ -1540,6 +1540,19 @@ def resolve_terms(prog, t, depth=3, _memo=None, assumptions=()):
                     out = ok_payload(args[0])
                 elif a is False and t[1].endswith("unwrap_or") and len(args) > 1:
                     out = args[1]
+            if out is None and t[1] == "std::option::Option::filter" and len(args) == 2 and args[0][0] == "agg" and args[0][2] in ("Some", "None") and args[1][0] == "closure" and prog.body(args[1][1]) is not None and depth > 0:
+                # Some(v).filter(p) with a predicate the context decides (`|_| !status.is_final()` for a constant status)
+                if args[0][2] == "None":
+                    out = args[0]
+                else:
+                    caps_ = {n: v for _, n, v in args[1][2]}
+                    cf_ = Ctx(prog.body(args[1][1]), params={2: args[0][3][0][2]}, captures=caps_, assumptions=assumptions).settle()
+                    pv_ = rec(cf_.T.return_term(), depth - 1)
+                    neg_ = False
+                    while pv_[0] == "un" and pv_[1] == "Not":
+                        pv_, neg_ = pv_[2], not neg_
+                    if pv_[0] == "const" and pv_[1] == "bool":
+                        out = args[0] if (pv_[2] != neg_) else ("agg", "std::option::Option", "None", ())
             if out is None and assumptions and t[1].split("::")[-1] == "then_some" and "bool" in t[1] and len(args) == 2:
                 # flag.then_some(v): Some(v) when the world says the flag is set, None when it says it is not
                 for pred_, val_ in assumptions:
